@@ -231,22 +231,20 @@ def r_feeder(e, R):
     retn = lambda n: n.kind == "stmt" and isinstance(n.ast, ast.Return)
     heads = [n for n in g.nodes if n.kind == "join" and n.tag == "loop-head"]
     for pn in popn:
-        okE = SC.Facts(posix, [is_sentinel(False)]).edge_ok()
-        esc = g.find_path(pn, lambda n: n in heads or n is g.exit, avoid=sends, use_exc=False, edge_ok=okE)
+        esc = SC.Facts(posix, [is_sentinel(False)]).find(g, pn, lambda n: n in heads or n is g.exit, avoid=sends, use_exc=False)
         R.check(esc is None and bool(sends), "R-FEEDER", f"{f.short}: an object popped from the buffer is sent before the next one is taken", f.short, "send_bytes(obj_)",
                 "the feeder drops objects it popped from the buffer: the task is never delivered and its future never resolves", e.loc(f, pn.ast),
                 g.fmt_path(esc) if esc else None)
-        okS = SC.Facts(posix, [is_sentinel(True)]).edge_ok()
-        bad = g.find_path(pn, lambda n: n in sends, use_exc=False, edge_ok=okS, avoid=lambda n: n in heads)
-        esc2 = g.find_path(pn, lambda n: n in heads or n is g.exit, avoid=lambda n: closen(n), use_exc=False, edge_ok=okS)
-        esc3 = g.find_path(pn, lambda n: n in heads, use_exc=False, edge_ok=okS)
+        FS = SC.Facts(posix, [is_sentinel(True)])
+        bad = FS.find(g, pn, lambda n: n in sends, use_exc=False, avoid=lambda n: n in heads)
+        esc2 = FS.find(g, pn, lambda n: n in heads or n is g.exit, avoid=lambda n: closen(n), use_exc=False)
+        esc3 = FS.find(g, pn, lambda n: n in heads, use_exc=False)
         R.check(bad is None and esc2 is None and esc3 is None, "R-FEEDER", f"{f.short}: the sentinel closes the pipe and ends the thread, and is never sent", f.short,
                 "if obj is sentinel: close(); return", "the close sentinel is pickled and sent to a worker, or the feeder thread never ends (join at shutdown hangs)",
                 e.loc(f, pn.ast))
     # on this platform (write lock present) no send happens without the lock
     for pn in popn:
-        okE = SC.Facts(posix, [is_sentinel(False)]).edge_ok()
-        bare = g.find_path(pn, lambda n: n in sends, avoid=lambda n: n in acq or n in heads, use_exc=False, edge_ok=okE)
+        bare = SC.Facts(posix, [is_sentinel(False)]).find(g, pn, lambda n: n in sends, avoid=lambda n: n in acq or n in heads, use_exc=False)
         R.check(bare is None and bool(posix), "R-PAIR", f"{f.short}: with a write lock (POSIX) every send is made under it", f.short, "wacquire(); send_bytes(obj_); wrelease()",
                 "the feeder writes to the pipe without the write lock although one exists: concurrent putters interleave their messages", e.loc(f, pn.ast),
                 g.fmt_path(bare) if bare else None)
@@ -258,8 +256,8 @@ def r_feeder(e, R):
     if not waits or not btests:
         raise AnalysisError("feeder: wait on the buffer condition not recognised")
     for t in btests:
-        okw = g.escape_path(t, lambda n: n in waits, until_pred=lambda n: n in popn, use_exc=False, edge_ok=SC.Facts([(SC.name(bufp), "F")]).edge_ok()) is None
-        okn = g.find_path(t, lambda n: n in waits, avoid=lambda n: n in popn, use_exc=False, edge_ok=SC.Facts([(SC.name(bufp), "T")]).edge_ok()) is None
+        okw = SC.Facts([(SC.name(bufp), "F")]).escape(g, t, lambda n: n in waits, until_pred=lambda n: n in popn, use_exc=False) is None
+        okn = SC.Facts([(SC.name(bufp), "T")]).find(g, t, lambda n: n in waits, avoid=lambda n: n in popn, use_exc=False) is None
         R.check(okw and okn, "R-FEEDER", f"{f.short}: waits on the buffer condition exactly when the buffer is empty", f.short, "if not buffer: nwait()",
                 "the feeder spins on an empty buffer (100% CPU) or sleeps with objects queued (a task is delayed until the next put)", e.loc(f, t.ast))
     # the thread is started by _start_thread with the feeder as its target
